@@ -109,7 +109,7 @@ def abstract(calls, digests):
 
 def ann_of(op):
     """The annotation signature of the descriptor a tag operation hands over (crashdrv tagDesc / annSig)."""
-    return "verif.variant=v%d;" % op["av"] if op.get("av") else ""
+    return "verif.variant=v%d;" % op["av"] if op.get("av") not in (None, 0, 7) else ""   # (7: a reference-name annotation only)
 
 
 def one_scenario(ctx, drv, sc, base, max_points):
@@ -138,7 +138,7 @@ def one_scenario(ctx, drv, sc, base, max_points):
         raise Infra("scenario %d: recording run failed (rc=%s marked=%s done=%s): %s" % (sid, p.returncode, marked, done,
                                                                                        p.stderr[-300:]))
     v = sc["victim"]
-    recs.append({"e": "victim", "op": "tag" if v["op"] == "tagsave" else v["op"], "n": v.get("n", 0), "ref": v.get("ref", ""), "ann": ann_of(v),
+    recs.append({"e": "victim", "op": "tag" if v["op"] in ("tagsave", "tagsaveflip") else v["op"], "n": v.get("n", 0), "ref": v.get("ref", ""), "ann": ann_of(v),
                  "res": "ok" if p.returncode == 0 else "err", "steps": abstract(calls, digests), "ncalls": len(calls),
                  "calls": [c["name"] for c in calls]})
     found = json.loads(run_cmd([drv, "inspect", rdir, scf]).stdout)
